@@ -15,7 +15,10 @@ Variants (parameters of `Cfg`):
   * `attemptCounted`: TLS and HTTP pools increment `dispatched` before `try_send` (documented and
     pinned by a TLS test: "counts all packets that were attempted"); the TCP pool only on success.
   * `route p = none`: the TLS hash cannot extract a flow → counted dropped, never queued.
-  * `errCountsWorkerDropped`: the HTTP worker adds processing errors to its `dropped` counter.
+  * `errCountsWorkerDropped`: a worker adds its processing errors to its `dropped` counter. The HTTP
+    worker did (former finding KF.C18.httpWorkerErrCountedDropped); since
+    fixes/C18-http-worker-error-not-a-drop.patch no pool does: `tcpPool / httpPool / tlsPool` below all
+    set it to `false`. The parameter stays in the generic invariant (it costs nothing).
 -/
 namespace Huginn.Pool
 
@@ -25,6 +28,17 @@ structure Cfg (Pkt : Type) where
   route : Pkt → Option Nat      -- `hash % n`; `none` = unroutable (TLS)
   attemptCounted : Bool
   errCountsWorkerDropped : Bool
+
+/-- The three pools of the repaired tree: they differ in when `dispatched` is counted and in
+whether the hash can fail; none counts a worker's processing error as a drop. -/
+def tcpPool {Pkt : Type} (n qcap : Nat) (route : Pkt → Nat) : Cfg Pkt :=
+  { n := n, qcap := qcap, route := fun p => some (route p), attemptCounted := false,
+    errCountsWorkerDropped := false }
+def httpPool {Pkt : Type} (n qcap : Nat) (route : Pkt → Nat) : Cfg Pkt :=
+  { n := n, qcap := qcap, route := fun p => some (route p), attemptCounted := true,
+    errCountsWorkerDropped := false }
+def tlsPool {Pkt : Type} (n qcap : Nat) (route : Pkt → Option Nat) : Cfg Pkt :=
+  { n := n, qcap := qcap, route := route, attemptCounted := true, errCountsWorkerDropped := false }
 
 /-- The sequential per-packet analysis run by each worker on its private state:
 `none` = processing error (no result is sent). -/
